@@ -322,6 +322,15 @@ func (e *Env) linesStore(c *schema.Ctx, info *types.Info, fd *ast.FuncDecl, s *a
 		}
 		return true, ""
 	}
+	// the drop of a repeated first entry: r.lines = r.lines[1:] where r.lines[1] == r.lines[0]
+	if sl, ok := ast.Unparen(rhs).(*ast.SliceExpr); ok && e.isRestorerField(info, sl.X, "lines") && sl.High == nil && sl.Low != nil && c.ExprStr(sl.Low) == "1" {
+		cond, okc := pathCond(c, fd.Body.List, s)
+		same, dec := unsatWith(orTrue(cond), "r.lines[0] != r.lines[1]")
+		if okc && dec && same {
+			return true, ""
+		}
+		return false, "the first line start is dropped under `" + cond + "`, which does not say that it is repeated by the second (r.lines[1] == r.lines[0])"
+	}
 	call, ok := rhs.(*ast.CallExpr)
 	if !ok || len(call.Args) != 2 || c.ExprStr(call.Fun) != "append" || c.ExprStr(call.Args[0]) != "r.lines" {
 		return false, "the line table is append-only: expected append(r.lines, <offset>)"
@@ -957,40 +966,8 @@ func (e *Env) lineBreaksAdvance(c *schema.Ctx) {
 	pkg := e.Prog.Pkg(load.PkgDecorator)
 	info := pkg.TypesInfo
 	n := 0
-	// the two spacing routines and the restorer methods they call (a line break may live in a helper)
-	var fds []*ast.FuncDecl
-	seenFd := map[*ast.FuncDecl]bool{}
-	for _, name := range []string{"applySpace", "applyDecorations"} {
-		fd := load.FuncDecl(pkg, "FileRestorer", name)
-		if fd == nil || fd.Body == nil {
-			e.Run.Violation("R-CURSOR", name+" exists", "", "function missing")
-			continue
-		}
-		fds = append(fds, fd)
-		seenFd[fd] = true
-	}
-	for i := 0; i < len(fds) && i < 12; i++ {
-		ast.Inspect(fds[i].Body, func(nd ast.Node) bool {
-			call, ok := nd.(*ast.CallExpr)
-			if !ok {
-				return true
-			}
-			fn := calleeFunc(info, call)
-			if fn == nil || fn.Pkg() != pkg.Types {
-				return true
-			}
-			if sig, ok := fn.Type().(*types.Signature); !ok || sig.Recv() == nil {
-				return true
-			}
-			for _, d := range load.AllFuncDecls(pkg) {
-				if info.Defs[d.Name] == types.Object(fn) && d.Body != nil && !seenFd[d] && d.Name.Name != "restoreNode" {
-					seenFd[d] = true
-					fds = append(fds, d)
-				}
-			}
-			return true
-		})
-	}
+	atEntry := false
+	fds := e.spacingFuncs(pkg)
 	for _, fd := range fds {
 		name := fd.Name.Name
 		ca, la := e.stateAliases(info, fd)
@@ -1004,6 +981,9 @@ func (e *Env) lineBreaksAdvance(c *schema.Ctx) {
 			}
 			// (whether and where the marker is set is decided by the line-state machine, R-SPACE; if
 			// it is set inside the block it must be the exit cursor)
+			if len(eff.starts) == 1 && eff.starts[0] == 0 {
+				atEntry = true
+			}
 			good := len(eff.starts) == 1 && eff.starts[0] >= 0 && eff.exit > eff.starts[0] && (!eff.markerSet || eff.markerVal == eff.exit)
 			e.Run.Check("R-CURSOR", key, e.Prog.Pos(blk[0].Pos()), good,
 				fmt.Sprintf("effect of the block over the entry cursor c0: line starts recorded at c0+%v, cursor on exit c0+%d, marker set=%v to c0+%d — one line start must be recorded at or after c0, the cursor must end strictly after it (it steps over the newline byte) and a marker set here must equal the exit cursor; otherwise two line starts can coincide (SetLines fails) or the next spacing is miscounted",
@@ -1011,6 +991,43 @@ func (e *Env) lineBreaksAdvance(c *schema.Ctx) {
 		}
 	}
 	e.Run.Floor("R-CURSOR", "line-break sites", n, 1)
+	// a line break that records its line start at the entry cursor itself (k = 0: the "\n" and
+	// line-comment breaks of applyDecorations) repeats the initial line start 0 when it is the very
+	// first thing in the file (a "\n" decoration at the head of File.Decs.Start): every later entry
+	// is larger because the cursor moves on, so only the first can repeat — and RestoreFile must drop
+	// it before SetLines, which rejects a table that is not strictly increasing.
+	if atEntry {
+		rf := load.FuncDecl(pkg, "FileRestorer", "RestoreFile")
+		dropped := false
+		if rf != nil && rf.Body != nil {
+			// RestoreFile with the methods it calls as statements spliced in, in order
+			flat := c.FlattenBody(rf.Body.List)
+			c.Subst = nil
+			setLinesAt, dropAt := -1, -1
+			for k, st := range flat {
+				ast.Inspect(st, func(nd ast.Node) bool {
+					if call, ok := nd.(*ast.CallExpr); ok {
+						if se, ok := call.Fun.(*ast.SelectorExpr); ok && se.Sel.Name == "SetLines" && setLinesAt < 0 {
+							setLinesAt = k
+						}
+					}
+					if as, ok := nd.(*ast.AssignStmt); ok && len(as.Lhs) == 1 && len(as.Rhs) == 1 && e.isRestorerField(info, as.Lhs[0], "lines") {
+						if sl, ok := ast.Unparen(as.Rhs[0]).(*ast.SliceExpr); ok && e.isRestorerField(info, sl.X, "lines") && sl.Low != nil && types.ExprString(sl.Low) == "1" && dropAt < 0 {
+							dropAt = k
+						}
+					}
+					return true
+				})
+			}
+			dropped = dropAt >= 0 && (setLinesAt < 0 || dropAt <= setLinesAt)
+		}
+		pos := ""
+		if rf != nil {
+			pos = e.Prog.Pos(rf.Pos())
+		}
+		e.Run.Check("R-CURSOR", "RestoreFile: a first line start that repeats offset 0 is dropped before SetLines", pos, dropped,
+			"a line break can record its line start at the cursor it finds (offset 0 for a \"\\n\" decoration at the head of File.Decs.Start), next to the initial entry 0: SetLines rejects the table and RestoreFile panics on a legal tree")
+	}
 }
 
 // restoreFileOrder: base before cursor; AddFile after the root restore with fileSize(); SetLines
@@ -1323,6 +1340,45 @@ func (e *Env) RAstOrder() {
 	}
 	e.Run.Analysed("adjacent position/child pairs", n)
 	e.Run.Floor("R-ASTORDER", "ordered pairs", n, 100)
+	// every position field of a go/ast node that stands for a token of the source is given a
+	// position by the restore case (the cursor, under whatever guard the token has): a field that
+	// is never written stays NoPos — invalid for position reporting, and out of rank order with its
+	// neighbours compared with a real parse
+	m := 0
+	for _, tn := range e.dstNodeNames() {
+		cs := rs.Cases[tn]
+		ant := e.astTypes[tn]
+		if cs == nil || ant == nil {
+			continue
+		}
+		stored := map[string]bool{}
+		for _, ev := range cs.Events {
+			if ev.Kind == schema.KPosStore {
+				stored[ev.Field] = true
+			}
+		}
+		for _, f := range ant.Fields {
+			if f.Kind != FPos {
+				continue
+			}
+			key := tn + "." + f.Name
+			if why, ok := posNotRestored[key]; ok {
+				e.Run.OK("R-ASTORDER", "restore "+key+" is given a position", e.casePos(cs), "frozen exception: "+why)
+				continue
+			}
+			m++
+			e.Run.Check("R-ASTORDER", "restore "+key+" is given a position", e.casePos(cs), stored[f.Name],
+				fmt.Sprintf("restore case %s never writes out.%s: the token's position stays NoPos (IsValid() false, rank 0 among its neighbours) while a parse of the same text sets it", tn, f.Name))
+		}
+	}
+	e.Run.Floor("R-ASTORDER", "position fields", m, 60)
+}
+
+// posNotRestored: position fields that legitimately have no token of their own in the restored text.
+var posNotRestored = map[string]string{
+	"File.FileStart":    "extent of the file, not a token (go1.20+); the file is registered with AddFile",
+	"File.FileEnd":      "extent of the file, not a token (go1.20+)",
+	"ImportSpec.EndPos": "not set by the parser either: only ast.SortImports fills it (it overrides Path.Pos as the spec's end when non-zero)",
 }
 
 // inlineLocals renders x with every local that is defined exactly once (:=, never reassigned,
@@ -1912,4 +1968,79 @@ func (e *Env) bufferEscapes(field string) (string, bool) {
 		})
 	}
 	return where, where != ""
+}
+
+// RColumnOne (C01): can anything be restored in column 1 of a line? Every line-break block
+// records a line start and leaves the cursor strictly behind it (it has to: two consecutive
+// breaks would otherwise record the same offset), so the first position of every restored line
+// is at column 2 or later. go/printer keeps a comment that is a line directive (`//line f:n`) in
+// column 1 only when its position says column 1 — everything else on the line is placed by the
+// printer, but such a directive inside an indented block is indented with the block and stops
+// being a directive.
+func (e *Env) RColumnOne() {
+	pkg := e.Prog.Pkg(load.PkgDecorator)
+	info := pkg.TypesInfo
+	n := 0
+	var sites []string
+	first := ""
+	for _, fd := range e.spacingFuncs(pkg) {
+		ca, la := e.stateAliases(info, fd)
+		for _, blk := range e.lineBreakBlocks(info, fd) {
+			eff := e.lineBreakEffectA(info, blk, ca, la)
+			if eff.why != "" || len(eff.starts) != 1 {
+				continue
+			}
+			n++
+			if eff.exit != eff.starts[0] {
+				sites = append(sites, fmt.Sprintf("%s (%s): line start at c0+%d, cursor left at c0+%d", fd.Name.Name, e.Prog.Pos(blk[0].Pos()), eff.starts[0], eff.exit))
+				if first == "" {
+					first = e.Prog.Pos(blk[0].Pos())
+				}
+			}
+		}
+	}
+	// one obligation for the restorer as a whole (where its line breaks live is a matter of layout)
+	e.Run.Check("R-CURSOR", "restorer: the position after a synthesized line break can be column 1", first, len(sites) == 0,
+		"whatever is restored after a line break sits in column 2 or later ("+strings.Join(sites, "; ")+"), so a `//line` directive that the source has in column 1 inside an indented block (goyacc, cgo, templates) is printed indented and is no longer a directive")
+	e.Run.Floor("R-CURSOR", "line breaks examined for column 1", n, 1)
+}
+
+// spacingFuncs: applySpace, applyDecorations and the restorer methods they call (a line break may
+// live in a helper).
+func (e *Env) spacingFuncs(pkg *packages.Package) []*ast.FuncDecl {
+	info := pkg.TypesInfo
+	var fds []*ast.FuncDecl
+	seenFd := map[*ast.FuncDecl]bool{}
+	for _, name := range []string{"applySpace", "applyDecorations"} {
+		fd := load.FuncDecl(pkg, "FileRestorer", name)
+		if fd == nil || fd.Body == nil {
+			e.Run.Violation("R-CURSOR", name+" exists", "", "function missing")
+			continue
+		}
+		fds = append(fds, fd)
+		seenFd[fd] = true
+	}
+	for i := 0; i < len(fds) && i < 12; i++ {
+		ast.Inspect(fds[i].Body, func(nd ast.Node) bool {
+			call, ok := nd.(*ast.CallExpr)
+			if !ok {
+				return true
+			}
+			fn := calleeFunc(info, call)
+			if fn == nil || fn.Pkg() != pkg.Types {
+				return true
+			}
+			if sig, ok := fn.Type().(*types.Signature); !ok || sig.Recv() == nil {
+				return true
+			}
+			for _, d := range load.AllFuncDecls(pkg) {
+				if info.Defs[d.Name] == types.Object(fn) && d.Body != nil && !seenFd[d] && d.Name.Name != "restoreNode" {
+					seenFd[d] = true
+					fds = append(fds, d)
+				}
+			}
+			return true
+		})
+	}
+	return fds
 }
